@@ -117,6 +117,58 @@ def run(d, props=None):
     json.dump(meta, open(os.path.join(d, 'meta.json'), 'w'), indent=1)
 
 
+def prun(d, props=None, workers='4'):
+    """evaluate one seeded change WITHOUT touching /repo: a scratch worktree of /repo with the patch applied and a scratch
+    copy of /verif (tools, overlay, kani crate; the content-addressed Verus cache is shared through hard links) whose
+    BNV_REPO / kani path dependency point at the worktree.  Several of these can run side by side.  Development aid:
+    meta.json records how each result was obtained (`how`)."""
+    d = os.path.abspath(d)
+    meta = json.load(open(os.path.join(d, 'meta.json')))
+    name = meta['name']
+    props = props or [meta['property']]
+    base = os.path.join('/tmp/sv', name)
+    shutil.rmtree(base, ignore_errors=True)
+    os.makedirs(base)
+    wt = os.path.join(base, 'repo')
+    vf = os.path.join(base, 'verif')
+    rc, out = sh(f'git worktree add --detach {wt} HEAD', '/repo')
+    assert rc == 0, out
+    try:
+        rc, out = sh(f'git apply {os.path.join(d, "patch.diff")}', wt)
+        assert rc == 0, out
+        sh(f'rsync -a --exclude build --exclude .git --exclude seeded --exclude probes {VERIF}/ {vf}/', '/')
+        os.makedirs(os.path.join(vf, 'build'), exist_ok=True)
+        sh(f'cp -al {VERIF}/build/cache {vf}/build/cache', '/')
+        ct = os.path.join(vf, 'kani', 'Cargo.toml')
+        open(ct, 'w').write(open(ct).read().replace('path = "/repo"', f'path = "{wt}"'))
+        for p in props:
+            t0 = time.time()
+            rc, out = sh(f'./check {p} --tier quick', vf, timeout=7200, env={'BNV_REPO': wt, 'BNV_WORKERS': workers})
+            lines = [l for l in out.split('\n') if l.startswith(('VIOLATION', 'KNOWN-FINDING', '[' + p)) or 'UNDECIDED' in l]
+            viol = [l for l in lines if l.startswith('VIOLATION')]
+            replays = []
+            for l in viol:
+                m = re.search(r'replay=(\S+)', l)
+                if m and os.path.exists(m.group(1)):
+                    rp = json.load(open(m.group(1)))
+                    replays.append(dict(function=rp.get('function'), failed=rp.get('failed_obligations', [])[:3], concrete=bool(rp.get('concrete_input')),
+                                        harness=(rp.get('concrete_input') or {}).get('harness')))
+            meta['checks'][p] = dict(exit=rc, detected=(rc == 1), wall_s=round(time.time() - t0, 1), violation_lines=[l[:300].replace(vf, '/verif') for l in viol][:6],
+                                     other=[l[:300] for l in lines if not l.startswith(('VIOLATION', 'KNOWN-FINDING'))][:8], replays=replays[:6],
+                                     how='scratch worktree of /repo with the patch applied + scratch copy of /verif (tools/seed_eval.py prun)',
+                                     verif_commit=sh('git rev-parse --short HEAD', VERIF)[1].strip())
+            print(name, p, 'exit', rc, 'violations', len(viol), f'{time.time() - t0:.0f}s', flush=True)
+            for r in replays[:4]:
+                print('   ', r)
+            for l in lines:
+                if 'UNDECIDED' in l:
+                    print('   ', l[:240])
+    finally:
+        sh(f'git worktree remove --force {wt}', '/repo')
+        shutil.rmtree(base, ignore_errors=True)
+    json.dump(meta, open(os.path.join(d, 'meta.json'), 'w'), indent=1)
+
+
 def readme():
     rows = []
     for n in sorted(os.listdir(SEEDED)):
@@ -141,5 +193,7 @@ if __name__ == '__main__':
         print(json.dumps(confirm(sys.argv[2], sys.argv[3], sys.argv[4], sys.argv[5] if len(sys.argv) > 5 else ''), indent=1)[:3000])
     elif cmd == 'run':
         run(sys.argv[2], sys.argv[3:] or None)
+    elif cmd == 'prun':
+        prun(sys.argv[2], sys.argv[3:] or None)
     elif cmd == 'readme':
         readme()
